@@ -276,6 +276,38 @@ CLAIMS.update({
         ref="DESIGN.md section 4 C17 and section 13"),
 })
 
+
+CLAIMS.update({
+    "C01": dict(
+        text="Theorems in coq/Props/C01.v: for the model of one 64-bit cell (Model/AtomicConc.v, generic over integer mod 2^64 and binary64 "
+             "values) every execution with any number of threads is linearizable to the spec value := value (+) d / read / value := 0, with "
+             "linearisation points = the fetch_add, the SUCCESSFUL compare-exchange of the float loop, the load, or the invocation of a zero "
+             "flush, each strictly inside [invocation, response] (real-time order proved once for any well-formed history); the cell equals "
+             "the spec state throughout. Corollaries: c01_final_sum (u64 mod 2^64; f64 = the fold of float additions in linearisation "
+             "order over all calls), c01_read_prefix / c01_read_subset (a read returns the fold of the increments linearised before it: "
+             "contains every increment completed before the read was invoked, none invoked after it returned), c01_monotone (u64 under "
+             "no-wrap; f64 for non-negative non-NaN increments, no reset in between), c01_flush_once (a local flush adds its amount "
+             "exactly once; a second flush and a zero flush perform no shared step). Tie: real Counter / IntCounter and local-counter "
+             "flushes run one atomic operation at a time under the deterministic scheduler (forced preemption inside the load / "
+             "compare-exchange window, spurious failures); each trace is validated event by event against aexec (proved equal to the step "
+             "relation) and spec_c01 (subset-sum read check, monotone reads, linearisation search) is evaluated on the markers alone.",
+        note="Per-location sequentially consistent interleaving semantics (one cell); memory orderings are recorded, not part of the "
+             "correspondence (no proof depends on them: Relaxed -> SeqCst is not a violation). One NaN. Not exhibited by the model: stale "
+             "relaxed loads on non-multi-copy-atomic hardware. CounterVec children are the same Value/Atomic code reached through C10's "
+             "harness object, not exercised here. Axioms: FloatAxioms; Flocq's classical/real axioms only under c01_monotone_float.",
+        ref="DESIGN.md section 4 C01 and 13"),
+    "C11": dict(
+        text="Theorems in coq/Props/C11.v (same model and invariants as C01 with set / inc / dec / add / sub / get): gauges (float and i64) are "
+             "linearizable with real-time order (c11_float_lin, c11_int_lin, c11_real_time); concurrent add/sub/inc/dec are never lost "
+             "(c11_no_lost_update_*); a read returns the initial value, the argument of some set or the result of some add - one 64-bit "
+             "store, never torn (c11_set_not_torn_*); sub(x) undoes add(x): exactly mod 2^64 for i64 wherever the two are linearised, and "
+             "for f64 sub = add of -x, equal to s when s + x is exact (via Flocq), refuted in general by a concrete example (1 and 2^53). "
+             "Tie as C01 on real Gauge / IntGauge with 2-3 threads; spec_c11 is an exhaustive linearisation search (up to 12 calls) with "
+             "two's-complement / binary64 arithmetic on the markers alone.",
+        note="As C01. The linearisation search is exhaustive because scenarios are bounded to 2-3 threads x 1-4 calls.",
+        ref="DESIGN.md section 4 C11 and 13"),
+})
+
 NOT_YET = "the technique applies (see DESIGN.md section 4) but the check is not finished, so the property is not claimed"
 
 # properties not claimed for a reason other than "not finished"
